@@ -574,16 +574,21 @@ cdef inline double _vec_normalise(vec_t *out, vec_t *inp) except -1.0:
 cdef inline bint mat_mul(mat_t targ, mat_t rot) except False:
     """Rotate target by the rotator matrix."""
     cdef double a, b, c
-    cdef int i
+    cdef int i, j
+    cdef mat_t other
+    # The rotator may be the target itself (m @= m), so work from a copy of it.
+    for i in range(3):
+        for j in range(3):
+            other[i][j] = rot[i][j]
     for i in range(3):
         a = targ[i][0]
         b = targ[i][1]
         c = targ[i][2]
         # The source rows only affect that row, so we only need to
         # store a copy of 3 at a time.
-        targ[i][0] = a * rot[0][0] + b * rot[1][0] + c * rot[2][0]
-        targ[i][1] = a * rot[0][1] + b * rot[1][1] + c * rot[2][1]
-        targ[i][2] = a * rot[0][2] + b * rot[1][2] + c * rot[2][2]
+        targ[i][0] = a * other[0][0] + b * other[1][0] + c * other[2][0]
+        targ[i][1] = a * other[0][1] + b * other[1][1] + c * other[2][1]
+        targ[i][2] = a * other[0][2] + b * other[1][2] + c * other[2][2]
     return True
 
 
